@@ -154,5 +154,5 @@ pub fn generate_c02(opts: &Opts, sink: &mut CaseSink) {
     }
 }
 
-pub const RULE_C03: &str = "the real End operator closing a scripted chain, every strategy (OnlyOne, Random, GroupBy on value mod 100, All/broadcast), batch modes single / fixed(1) / fixed(2..5) / fixed(1024), 1..3 downstream blocks with 1..5 replicas each (several downstream blocks per producer), 1..3 rounds with data, timestamps, watermarks and FlushBatch; distinct values so that each delivery is attributable. Non-trivial: >=3 data elements and >=2 receivers; distinct = distinct case terms";
+pub const RULE_C03: &str = "the real End operator closing a scripted chain, every strategy (OnlyOne, Random, GroupBy on value mod 100, All/broadcast), batch modes single / fixed(1) / fixed(2..5) / fixed(1024), 1..3 downstream blocks with 1..5 replicas each (several downstream blocks per producer), 1..3 rounds with data, timestamps, watermarks and FlushBatch; distinct values so that each delivery is attributable; plus, for the scheduler's wiring of forward edges, the execution graphs of random jobs on local and heterogeneous multi-host deployments (generator of C19, every host's graph). Non-trivial: >=3 data elements and >=2 receivers / >=3 blocks and >=4 links; distinct = distinct case terms";
 pub const RULE_C02: &str = "links in memory: as C03, comparing per receiver the exact batch sequence with the model (batch boundaries included) and the conservation of elements; wire format: 1..6 messages (empty, single, up to 40 elements, extreme payloads / timestamps / replica ids) framed by the real remote_send for several destination replicas on one connection, decoded by the real remote_recv, header bytes compared with the model encoder. Non-trivial: as C03 / >=2 frames; distinct = distinct case terms";
